@@ -5,6 +5,7 @@ set -e
 cd "$(dirname "$0")"
 export CARGO_NET_OFFLINE=true
 (cd crates/replay && cargo build --release --offline --target-dir /verif/target/replay 2>&1 | tail -2)
+(cd crates/replay2 && cargo build --release --offline --target-dir /verif/target/replay2 2>&1 | tail -2)
 python3-vt symx/prep.py > /dev/null
 echo setup ok
 # warm the Kani build of the generated-code crate (proc-macro + o2o built by the host cargo)
